@@ -59,8 +59,9 @@ func (c *clientWrapper) Call(ctx context.Context, req client.Request, rsp interf
 			return blockErr
 		}
 		defer entry.Exit()
-		opts = append(opts, WithSelectOption(entry))
-		opts = append(opts, WithCallWrapper(entry))
+		// (on a copy: opts is the caller's slice, and appending in place writes into its spare capacity,
+		// where a concurrent call made with the same option slice puts the options of ITS entry)
+		opts = append(opts[:len(opts):len(opts)], WithSelectOption(entry), WithCallWrapper(entry))
 		return c.Client.Call(ctx, req, rsp, opts...)
 	}
 }
@@ -108,8 +109,9 @@ func (c *clientWrapper) Stream(ctx context.Context, req client.Request, opts ...
 			return nil, blockErr
 		}
 		defer entry.Exit()
-		opts = append(opts, WithSelectOption(entry))
-		opts = append(opts, WithCallWrapper(entry))
+		// (on a copy: opts is the caller's slice, and appending in place writes into its spare capacity,
+		// where a concurrent call made with the same option slice puts the options of ITS entry)
+		opts = append(opts[:len(opts):len(opts)], WithSelectOption(entry), WithCallWrapper(entry))
 		// go-micro applies call wrappers to Call only: a failed Stream is traced here
 		stream, err := c.Client.Stream(ctx, req, opts...)
 		if err != nil {
